@@ -4,6 +4,7 @@ REGISTRY = {
     "C01": "harness.c01_reliable",
     "C02": "harness.c02_drain",
     "C03": "harness.c03_negotiation",
+    "C04": "harness.c04_dtls",
     "C05": "harness.c05_nocrash",
     "C06": "harness.c06_partial",
     "C07": "harness.c07_rtp",
